@@ -327,7 +327,10 @@ def apply_unmodelled(R, name, rng):
         pe = nap.compute_perievent(xd, ref, minmax=(-2 * U2 / 1e9, 2 * U2 / 1e9))
         return [pe]
     if name == "slice_index":
-        return [xd[1:], xd[::2], xd[0:0]]
+        fr = nap.TsdFrame(np.asarray(xd.t), np.stack([xd.values, xd.values * 2], 1), time_support=xd.time_support, columns=["a", "b"])
+        idx = list(range(len(xd)))
+        rng.shuffle(idx)
+        return [xd[1:], xd[::2], xd[0:0], xd[::-1], xd[idx[:3]], fr[::-1], fr[idx[:3]], np.abs(xd[::-1]), xd[idx].get(float(xd.t[0]), float(xd.t[-1]))]
     if name == "mask_index":
         m = np.arange(len(xd)) % 2 == 0
         return [xd[m]]
